@@ -33,6 +33,9 @@ _queries = None
 EXTRA = ['CC[n+]1ccn(C)c1', 'C[n+]1ccn(Cc2ccccc2)c1', 'Cc1cc[nH+][nH]1', 'CCN1C=C[N+](C)=C1', 'CC(C)[n+]1ccn(C)c1', 'Cc1[nH]cc[nH+]1',
          'Cn1cc[n+](c1)C[C@H](N)C(O)=O', 'C[n+]1ccn(c1)C[C@H](N)C(O)=O', 'CCn1cc[n+](C)c1C', 'Cc1ccc2[nH]c[nH+]c2c1', 'CN(C)C(C)=[N+](C)CC',
          'C[C@H](N)Cn1cc[n+](CC)c1', 'F[C@H]1C[C@@H](F)C1', 'C[C@H]1CC[C@@H](C)CC1', 'C[C@H]1CC[C@H](C)CC1', 'O[C@H]1[C@H](O)[C@@H](O)[C@H](O)[C@@H](O)[C@@H]1O',
+         # stereo elements that exist only through an isotope label
+         'C[C@H](O)[13CH3]', 'C/C=C(/C)[13CH3]', 'C[C@H]([18OH])O', 'C[C@@H]([13CH3])N', '[2H][C@H](C)O', 'C[C@H]([2H])c1ccccc1', 'CC(C)=C/[13CH]=C/C',
+         '[13CH3][C@H](C)C(=O)O.C[C@H](N)C(=O)O', 'C[C@@]([13CH3])([14CH3])O',
          'C/C=C1/CC/C(=C\\C)CC1', 'O[C@H]1C[C@@H](O)C[C@H](O)C1', 'C[C@H]1C[C@@H](C)C1', 'F[C@H]1CC[C@@H](F)CC1.F[C@H]1CC[C@H](F)CC1']
 
 
@@ -90,7 +93,9 @@ def transforms(m, warm=False):
     out = {}
     for name, f in (('canonicalize', lambda x: x.canonicalize()), ('standardize', lambda x: x.standardize()),
                     ('neutralize', lambda x: x.neutralize()), ('kekule', lambda x: x.kekule()),
-                    ('standardize_charges', lambda x: x.standardize_charges()), ('fix_resonance', lambda x: x.fix_resonance())):
+                    ('standardize_charges', lambda x: x.standardize_charges()), ('fix_resonance', lambda x: x.fix_resonance()),
+                    ('clean_isotopes', lambda x: x.clean_isotopes()), ('clean_stereo', lambda x: x.clean_stereo()),
+                    ('implicify_hydrogens', lambda x: x.implicify_hydrogens()), ('explicify_hydrogens', lambda x: x.explicify_hydrogens())):
         c = m.copy()
         G._fix_slots(c)
         if warm:        # every cached view is filled before the operation runs
